@@ -23,7 +23,7 @@ MASK64 = (1 << 64) - 1
 # (`returned_is_first_of_run`) and with this switch on the check demands it of the implementation (impl-vs-model).
 # The property text itself only asks for *a* maximiser: switched off, the position inside the run is recorded as a
 # feature and not judged.
-STRICT_FIRST_OF_RUN = True
+STRICT_FIRST_OF_RUN = False
 # Behaviour the property text does not reach (NaN kept -> ValueError; constant arrays and stub histograms with empty end
 # bins -> first centre through 0/0) is compared with the model and the outcome recorded as a feature
 # ("outside-property:...:as-modelled" / "...:DIFFERS(recorded only)"); it is judged (impl-vs-model) only with this switch on.
@@ -510,7 +510,7 @@ class C15(Prop):
             feats.add("exact-uniform-binning:" + ("same-histogram" if same_hist else "differs-near-an-edge"))
             if drep["otsu_remove_nan"] is None or (drep["otsu_keep_nan"] is None) != has_nan:
                 model_ok = False
-            elif same_hist and len(near_classes) == 1:
+            elif same_hist and len(near_classes) == 1 and (len(near) == 1 or STRICT_FIRST_OF_RUN):
                 dt = float(unrat(drep["otsu_remove_nan"]))
                 model["threshold_exact_binning"] = dt
                 model_ok = model_ok and abs(dt - t) <= 16 * EPS * max(abs(lo), abs(hi))
